@@ -295,7 +295,7 @@ where
 {
     let e = env::<C>();
     let t = C::TAG;
-    let (n_rand, n_pairs_rand, n_scal) = if ctx.quick() { (3, 20, 2) } else { (8, 300, 8) };
+    let (n_rand, n_pairs_rand, n_scal) = if crate::small(ctx) { (3 * crate::extra(ctx), 20 * crate::extra(ctx), 2) } else { (8, 300, 8) };
     let ops = operands::<C>(ctx, n_rand);
     for o in &ops {
         ctx.count(&format!("{t}-operand:{}", o.class));
@@ -393,7 +393,7 @@ where
     // off-curve coordinates through the checked constructors
     {
         let mut rng = ctx.rng(&format!("{t}-offcurve"));
-        for i in 0..(if ctx.quick() { 6 } else { 40 }) {
+        for i in 0..(if crate::small(ctx) { 6 } else { 40 }) {
             let (x, mut y) = (C::B::random(&mut rng), C::B::random(&mut rng));
             if i % 2 == 0 {
                 // y² = x³ + b + 1 : nearly on the curve
@@ -425,7 +425,7 @@ where
 
     // binary
     let mut pair_list: Vec<(C::P, C::P, String)> = vec![];
-    let core: Vec<usize> = if ctx.quick() { (0..ops.len()).step_by(2).collect() } else { (0..ops.len()).collect() };
+    let core: Vec<usize> = if crate::small(ctx) { (0..ops.len()).step_by(2).collect() } else { (0..ops.len()).collect() };
     for &i in &core {
         for &j in &core {
             pair_list.push((ops[i].p, ops[j].p, format!("grid:{}x{}", ops[i].class, ops[j].class)));
@@ -486,7 +486,7 @@ where
 
     // scalar multiplication
     let scal = scalars::<C>(ctx, n_scal);
-    let mul_ops: Vec<&Operand<C>> = if ctx.quick() { ops.iter().step_by(3).collect() } else { ops.iter().collect() };
+    let mul_ops: Vec<&Operand<C>> = if crate::small(ctx) { ops.iter().step_by(3).collect() } else { ops.iter().collect() };
     for o in &mul_ops {
         let p = o.p;
         let pa = p.to_affine();
@@ -524,7 +524,7 @@ where
     }
 
     // sums, batch normalisation
-    let lens: Vec<usize> = if ctx.quick() { vec![0, 1, 2, 6] } else { vec![0, 1, 2, 3, 8, 17, 40] };
+    let lens: Vec<usize> = if crate::small(ctx) { vec![0, 1, 2, 6] } else { vec![0, 1, 2, 3, 8, 17, 40] };
     for (n, len) in lens.iter().enumerate() {
         let mut rng = ctx.rng(&format!("{t}-sum-{n}"));
         let pts: Vec<C::P> = (0..*len).map(|_| ops[(rng.next_u32() as usize) % ops.len()].p).collect();
@@ -648,10 +648,10 @@ where
         valid_u.push(u.as_ref().to_vec());
     }
     // single-bit corruptions
-    let n_src = if ctx.quick() { 2 } else { 6 };
+    let n_src = if crate::small(ctx) { 2 } else { 6 };
     for src in valid_c.iter().skip(1).take(n_src).chain(valid_u.iter().skip(1).take(n_src)) {
         let nbits = src.len() * 8;
-        let bits: Vec<usize> = if ctx.quick() {
+        let bits: Vec<usize> = if crate::small(ctx) {
             vec![0, 1, 2, 3, 4, 7, 8, nbits / 2, nbits / 2 + 1, nbits - 8, nbits - 3, nbits - 2, nbits - 1]
         } else {
             (0..nbits).collect()
@@ -710,7 +710,7 @@ where
             }
         }
     }
-    let n = if ctx.quick() { 40 } else { 1500 };
+    let n = if crate::small(ctx) { 40 } else { 1500 };
     let mut rng = ctx.rng(&format!("{t}-random-bytes"));
     for i in 0..n {
         let mut b = vec![0u8; if i % 2 == 0 { clen } else { ulen }];
